@@ -21,20 +21,20 @@ TECHNIQUE = {
     'C02': 'static analysis: static model of serialiser dispatch (MRO + decorator registries) over the class graph; field-flow of saver keys vs loader keys vs constructor parameters; constructor-signature fit; CFG ordering of yield vs back-references; falsy-default constructor-parameter check for restored values; element-coverage of the collection savers/loaders; unique-name (check-before-insert) and never-rebound callback list obligations of the (un)serialiser; identity-test path condition of the by-name form of saved functions; absence-test guard of record upgrades; C-order lint of the categorical code computation; order-by-axis lint of the coordinate sort in the loaders; `saved or default` lint inside loaders',
     'C03': 'static analysis: must-pass-through on the statement CFG (mutation => recomputation, modulo allowed guards), subscription tables, finally-discipline of context managers, loop-mutation lint, shortcut/value-comparison check; decisive-comparison check of the no-change shortcuts (path conditions as formulas); who-may-drop-an-attribute lint; attribute-coverage check of the dataset-removed handler; membership (`cid in link`) decided from the fields compute() reads / from the held links',
     'C04': 'static analysis: forward dataflow (view dependence of every return) + CFG reachability under "view is None"; argument-translation check of the forwarding wrapper; must-pass-through for derived structures; rank (1-d only) obligation of the categorical code lookup; relative-index abstract domain (view entries / index tuples normalised before position arithmetic); ownership guard of the pixel-space shortcut; completion of the caller\'s view in IndexedData (None / Ellipsis / single entry / short tuple) read off path conditions; views of categorical arrays inherit categories only; C-order lint of flatten / reshape pairs; boolean-mask views converted to index arrays before completion',
-    'C05': 'static analysis: effect summaries (reads/writes with property, call, deep-mutation and __setattr__-hook expansion) of every mutator vs the memoised readers; must-pass-through to a full-coverage invalidation on the CFG; cache-key completeness; invalidation-dominates-broadcast path check; key-determines-reads check of (key, value) caches; taint of the assigned value through the attribute hook; shared shortcut rule (C03.e) under C05.e; fresh-before-mutate dataflow of the array reducers with parameters as the caller\'s arrays',
+    'C05': 'static analysis: effect summaries (reads/writes with property, call, deep-mutation and __setattr__-hook expansion) of every mutator vs the memoised readers; must-pass-through to a full-coverage invalidation on the CFG; cache-key completeness; invalidation-dominates-broadcast path check; key-determines-reads check of (key, value) caches; taint of the assigned value through the attribute hook; shared shortcut rule (C03.e) under C05.e; fresh-before-mutate dataflow of the array reducers with parameters as the caller\'s arrays; may-alias dataflow from cache reads to in-place operations (C05.g)',
     'C06': 'static analysis: paired-write check of the two membership collections, must-pass-through for register/unregister on the CFG, class-model resolution of the delegating descriptors, loop-mutation lint; who-deletes-a-grouped-subset lint (group side kept consistent); idempotence of the dataset-added handler; shared undo-membership rule (C13.d) under C06.g; self-sufficiency of the subscriptions made by register_to_hub (fields read by handlers / filters are set by the constructor); every registered DataCollection protocol registers restored groups (call-graph closure over the loaders); hub flush discipline borrowed (C07.b) under C06.h; identity operand check of the membership guard; filter reads followed through methods and getattr',
-    'C07': 'static analysis: dominator/branch-reachability analysis of broadcast on the statement CFG; typestate of the delay block (nesting, finally, outermost flush, detached queue); structural checks of handler selection; only a detached snapshot of the queue may be flushed; stored subscription triple is what was given (identity-with-None guard for the numeric priority, unconditional or fully compared store)',
+    'C07': 'static analysis: dominator/branch-reachability analysis of broadcast on the statement CFG; typestate of the delay block (nesting, finally, outermost flush, detached queue); structural checks of handler selection; only a detached snapshot of the queue may be flushed; stored subscription triple is what was given (identity-with-None guard for the numeric priority, unconditional or fully compared store); position agreement between the weak references stored by _wrap and the comparisons of _auto_remove (C07.f)',
     'C08': 'static analysis: effect summaries (move_to write set = center read set), X/Y dataflow tags for axis separation, field-flow of copy/saver/loader vs contains(), chunk read/write pairing; x/y sibling cross-check (paired expressions equal up to renaming); element-order (C) lint of flatten/reshape pairs; sibling agreement of the angle-modulo-period tests; homogeneous-divide dataflow of the projected region (tests read with locals spelled out); general-angle half-extents computed from both radii; scale-free rule borrowed (C09.g) under C08.i; no in-place writes into containers shared by the shallow copy() in move/rotate; period-vs-symmetry table of the angle shortcuts',
     'C09': 'static analysis: abstract enumeration of the dispatch function over region class x axis kinds (isinstance decided by the class model) + two-point axis type system (X|Y tags) on every pairing sink; sortedness typestate of category stores; every-category-examined lint of the polygon translation; shared pre-selection-box rule (C08.f) under C09.f; scale-free lint of the polygon helpers (no rounding / absolute tolerance on coordinate values); pixel-shortcut ownership guard borrowed (C04.f) under C09.h; period-vs-symmetry rule of the angle shortcuts (C08.k) under C09.i',
     'C10': 'static analysis: table agreement of the reducer dictionaries, flag<->filter guard check, keyword-forwarding check on the chunked recursion and the array-level call, chunk write-back pairing; sign-domain abstract interpretation of the upper-limit widening and its ordering w.r.t. the log transform; guard check of un-broadcasting vs repetition-sensitive statistics; typestate of the sub-array flag vs result padding (CFG path search with infeasible-edge pruning); relative-index domain on the statistic view; order dataflow (ORD/LO/HI) of the histogram edges; predicate of the emptiness count of the NaN-aware sum; shared view-of-categorical rule (C04.d) under C10.j',
     'C11': 'static analysis: two-point role type system (LEFT|RIGHT) propagated by forward dataflow through the four join shapes; paired registration/removal; finally-discipline of the recursion guard; value-exact key comparison (no fixed-dtype cast of key data, no unfounded assume_unique); one-sided casts (to the other side\'s dtype) reported as lossy; equivalence of the path conditions of the two registration stores',
     'C12': 'static analysis: registry extraction from decorator call sites (versions, pairs, order), per-version key agreement through helper chains (field-flow), literal agreement of stamp and default, graph checks on the rename table file; layout (shape signature) agreement of keys whose reading is delegated to another version\'s loader; memo key of the loader dispatch; shared back-reference ordering rule (C02.f) under C12.f; quantifier/polarity recogniser for the external-link classification of old DataCollection records; loaded-layout agreement of fields set by several loader versions; save / restore typestate of the disambiguation flag around the recursive load; saver/loader pairing by record position (a sequence stored whole must not be re-wrapped); value transfer of the version-1 upgrade without truth-value defaulting',
     'C13': 'static analysis: structural stack-discipline check (push/pop/call on the same object), inverse-call table, CFG dominance of snapshot over apply, undo write-set vs what the edit mode may change (effect summaries); snapshot recognised as loops / update / comprehension; unconditional restore; edit modes never write into the snapshotted object (C13.f); path conditions of the undo\'s delete; group life-cycle and member-per-dataset rules of C06 under C13.g / C13.h',
-    'C14': 'static analysis: operator-dunder tables incl. reflected operand order, dataflow of operand order in compute, effect summaries of replace_ids/update_id, recursion check of the dependent sweep, list-ownership (aliasing) dataflow; view-packing idiom of the key helper (only tuples spliced); transitivity of the dependent sweep decided semantically (recursion, re-sweep or work list); order-preserving rebuild recognised as comprehension or fill loop; sibling rule: every link class computing from its own copy of the inputs rewrites it in replace_ids; operands handled independently; no removal from the namespace shared by nested evaluations; no store into the shared evaluation namespace after eval()',
+    'C14': 'static analysis: operator-dunder tables incl. reflected operand order, dataflow of operand order in compute, effect summaries of replace_ids/update_id, recursion check of the dependent sweep, list-ownership (aliasing) dataflow; view-packing idiom of the key helper (only tuples spliced); transitivity of the dependent sweep decided semantically (recursion, re-sweep or work list); order-preserving rebuild recognised as comprehension or fill loop; sibling rule: every link class computing from its own copy of the inputs rewrites it in replace_ids; operands handled independently; no removal from the namespace shared by nested evaluations; no store into the shared evaluation namespace after eval(); key-provenance check of the tag replacement table (C14.h)',
     'C15': 'static analysis: structural pairing of forward/inverse matrix assignments and uses, per-axis link set-up check (endpoint, index, direction flag), flag<->helper dispatch check; index-role type inference (world vs pixel axis) over the correlation-matrix helpers and their call sites; exact (non-tolerant) dependence table; relative-index taint: view entries reach the transformation only as positions on the pixel axis; per-side seeding conditions of the dependence closure; index arrays broadcast before the transformation; C-order lint of the flatten / reshape pairs around the transformation; exit-condition coverage of the closure loop (every loop-carried mask compared with its successor)',
-    'C16': 'static analysis: cache-key completeness (names reaching the key tuples), CFG dominance of the hash test over pixel-cache reads under the cache-id assumption, both-branch accumulation check, sibling-call agreement; shortcut returns use the request\'s invalid value; locals canonicalised by role; shared shortcut rule (C03.e) under C16.e; cache records read through local aliases; hit / store / eviction decided from path conditions; fresh-list dataflow of bounds_for_cache; index-role rule incl. other readers of the dependence table under C16.f; exact dependence table borrowed (C15.d) under C16.g; accumulate-on-every-path and defined-in-iteration decided on the CFG',
+    'C16': 'static analysis: cache-key completeness (names reaching the key tuples), CFG dominance of the hash test over pixel-cache reads under the cache-id assumption, both-branch accumulation check, sibling-call agreement; shortcut returns use the request\'s invalid value; locals canonicalised by role; shared shortcut rule (C03.e) under C16.e; cache records read through local aliases; hit / store / eviction decided from path conditions; fresh-list dataflow of bounds_for_cache; index-role rule incl. other readers of the dependence table under C16.f; exact dependence table borrowed (C15.d) under C16.g; accumulate-on-every-path and defined-in-iteration decided on the CFG; both accumulators of translate_pixel written inside the loop (C16.h)',
     'C17': 'static analysis: mutation => broadcast must-pass-through and broadcast-dominated-by-mutation on the statement CFG (hub-presence guards pruned, dirty flags), coupled-structure effect summaries, guard-dominates-insert; who-may-write lint for the announced structures; self-announcing writers accepted; lookup decided by evaluating path conditions over match counts; path-sensitive CFG search (boolean locals and is-None facts followed along paths, handler edges) instead of a dirty-flag idiom; definite-write refinement (pop with default); every method that broadcasts a table message is checked; flag lists (any / all) and Boolean accumulations followed along paths',
-    'C18': 'static analysis: subscription tables (message -> handler reaching the documented operation, resolved through the class model), registration of both sync directions, key agreement of viewer save/restore, loop-mutation lint, must-notify on the CFG; kind-filter guard check of the attribute picker; removal condition of remove_data and kind filters of the picker as propositional formulas; change-detector rule (no acting path leaves without refreshing the remembered value) by CFG search with state bits; identity membership of the layer-artist container; unfiltered dataset-removed subscription',
+    'C18': 'static analysis: subscription tables (message -> handler reaching the documented operation, resolved through the class model), registration of both sync directions, key agreement of viewer save/restore, loop-mutation lint, must-notify on the CFG; kind-filter guard check of the attribute picker; removal condition of remove_data and kind filters of the picker as propositional formulas; change-detector rule (no acting path leaves without refreshing the remembered value) by CFG search with state bits; identity membership of the layer-artist container; unfiltered dataset-removed subscription; selection-vs-whole check of remembered values (C18.g)',
     'C19': 'static analysis: structural enumeration/naming/order check of the three exporters, forward dataflow for fresh-before-mutate (no in-place masking of the dataset\'s own arrays), sibling agreement, load-log key agreement (field-flow); SUB/PARENT/MASK dataflow of the subset preparation; dtype-family lint (issubdtype against builtin scalars); no reads of live datasets in the load log\'s saver; rebuilt-dtype lint (byte order); no use of categorical codes in the writers; unconditional BLANK announcement of the integer sentinel',
 }
 
